@@ -144,7 +144,27 @@ pub fn raw_name_to_ts_field(value: String) -> String {
     if valid {
         value
     } else {
-        format!(r#""{value}""#)
+        format!(r#""{}""#, escape_string(&value))
+    }
+}
+
+/// Escapes `\` and `"`, so that the text can be placed between double quotes in TypeScript.
+pub fn escape_string(text: &str) -> String {
+    text.replace('\\', "\\\\").replace('"', "\\\"")
+}
+
+/// An expression which evaluates to the string `name` evaluates to, escaped for use between
+/// double quotes. String literals - the common case - are escaped right away.
+pub fn escaped_name(name: &Expr) -> TokenStream {
+    match name {
+        Expr::Lit(ExprLit {
+            lit: Lit::Str(literal),
+            ..
+        }) => {
+            let escaped = escape_string(&literal.value());
+            quote!(#escaped)
+        }
+        name => quote!((#name).to_string().replace('\\', "\\\\").replace('"', "\\\"")),
     }
 }
 
